@@ -111,6 +111,8 @@ func runTask(t task) {
 		outcome("armor:decrypted_to_original:" + t.class)
 	case strings.HasPrefix(t.class, "other-passphrase"):
 		outcome("armor:rejected:other-passphrase")
+	case strings.HasPrefix(t.class, "near-miss passphrase"):
+		outcome("armor:rejected:near-miss-passphrase")
 	default:
 		outcome("armor:rejected:" + t.class)
 	}
@@ -282,6 +284,35 @@ func armorAll() {
 		}
 	}
 
+	// ---- phase 4b: near-miss passphrases (nearmiss.go): every member of N(base) must fail to open a key encrypted with base
+	for ki, k := range keysL {
+		if r.Quick() && ki != 0 {
+			continue // quick: one key type
+		}
+		for _, b := range nearBases(passes) {
+			if r.Quick() && !nearQuickBases[b.name] {
+				continue
+			}
+			a, ok := armors[k.name+"/"+b.name]
+			if !ok {
+				if rec := vk.Catch(func() { a = armor.EncryptArmorPrivKey(k.k, b.val) }); rec != nil {
+					report("armor EncryptArmorPrivKey panics", ord, k.name+"/"+b.name, fmt.Sprint(rec))
+					continue
+				}
+				r.Eval()
+				nBcrypt.Add(1)
+				add("right-passphrase", fmt.Sprintf("key=%s pass=%s", k.name, b.name), a, b.val, k.k)
+			}
+			for _, v := range nearMisses(b.val, r.Thorough()) {
+				if b.val != "" && bcryptKeyMaterial(v.val) == bcryptKeyMaterial(b.val) {
+					outcome("armor:near-miss_not_tried(same 72-byte cyclic bcrypt key material = the known bcrypt aliasing finding)")
+					continue
+				}
+				add("near-miss passphrase, "+v.group, fmt.Sprintf("key=%s encrypted with %q, opened with variant %q", k.name, b.name, v.name), a, v.val, nil)
+			}
+		}
+	}
+
 	r.ParFor(len(tasks), func(i int) { runTask(tasks[i]) })
 	if r.Capped() {
 		return
@@ -367,6 +398,7 @@ func keybaseAll(keysL []keyT, passes []passT) {
 			r.Distinct("keybase:" + d)
 		}
 	})
+	keybaseNearMiss(keysL[0], passes)
 	// account from mnemonic: keybase (bip39 -> hd -> secp256k1 -> armor) against the independent reference chain
 	mn := "abandon abandon abandon abandon abandon abandon abandon abandon abandon abandon abandon about"
 	type acct struct {
@@ -408,5 +440,105 @@ func keybaseAll(keysL []keyT, passes []passT) {
 		report("keybase CreateAccount accepts a mnemonic with a bad checksum", 0, "abandon x12", nil)
 	} else {
 		outcome("keybase:bad_mnemonic_rejected")
+	}
+}
+
+// keybaseNearMiss: a key imported with passphrase base; Sign with every near-miss of base must fail; ExportPrivKey,
+// Delete (key must still be there afterwards) and Rotate (new-passphrase callback must not run) with a near-miss must
+// fail too (quick: Sign for the whole family of one base, the other three for a 3-variant subset; thorough: everything).
+func keybaseNearMiss(k keyT, passes []passT) {
+	type nt struct {
+		ord   int64
+		base  passT
+		v     nearT
+		kb    keys.Keybase
+		name  string
+		full  bool // also Export / Delete / Rotate
+		delKb keys.Keybase
+	}
+	var nts []nt
+	for bi, b := range nearBases(passes) {
+		if b.val == "" || (r.Quick() && b.name != nearQuickKeybaseBase) {
+			continue
+		}
+		name := fmt.Sprintf("near-%d", bi)
+		kb := keys.NewInMemory()
+		if err := kb.ImportPrivKey(name, k.k, b.val); err != nil {
+			report("keybase ImportPrivKey fails", int64(bi), name, err.Error())
+			continue
+		}
+		r.Eval()
+		nBcrypt.Add(1)
+		for vi, v := range nearMisses(b.val, r.Thorough()) {
+			if bcryptKeyMaterial(v.val) == bcryptKeyMaterial(b.val) {
+				outcome("keybase:near-miss_not_tried(known bcrypt aliasing finding)")
+				continue
+			}
+			full := r.Thorough() || v.name == "trailing LF" || v.name == "leading space" || strings.HasPrefix(v.name, "case of letter at byte 0 ")
+			t := nt{int64(bi*1000 + vi), b, v, kb, name, full, nil}
+			if full { // Delete gets a keybase of its own: a (wrongly) successful Delete must not disturb the other attempts
+				t.delKb = keys.NewInMemory()
+				if err := t.delKb.ImportPrivKey(name, k.k, b.val); err != nil {
+					report("keybase ImportPrivKey fails", t.ord, name, err.Error())
+					continue
+				}
+				r.Eval()
+				nBcrypt.Add(1)
+			}
+			nts = append(nts, t)
+		}
+	}
+	msg := []byte("c46 keybase near-miss")
+	r.ParFor(len(nts), func(i int) {
+		t := nts[i]
+		desc := fmt.Sprintf("key=%s imported with %q, variant %q", k.name, t.base.name, t.v.name)
+		try := func(api string, f func() error) {
+			var err error
+			rec := vk.Catch(func() { err = f() })
+			r.Eval()
+			nBcrypt.Add(1)
+			switch {
+			case rec != nil:
+				report("keybase "+api+" panics (near-miss passphrase, "+t.v.group+")", t.ord, desc, fmt.Sprint(rec))
+			case err == nil:
+				report("keybase "+api+" succeeds with a near-miss passphrase ("+t.v.group+")", t.ord, desc, nil)
+			default:
+				outcome("keybase:" + api + "_near-miss_rejected")
+			}
+			r.Distinct("keybase-near:" + api + ":" + desc)
+		}
+		try("Sign", func() error { _, _, err := t.kb.Sign(t.name, t.v.val, msg); return err })
+		if !t.full {
+			return
+		}
+		try("ExportPrivKey", func() error { _, err := t.kb.ExportPrivKey(t.name, t.v.val); return err })
+		try("Rotate", func() error {
+			called := false
+			err := t.kb.Rotate(t.name, t.v.val, func() (string, error) { called = true; return "", fmt.Errorf("c46: refused") })
+			if called {
+				return nil // the old passphrase was accepted
+			}
+			return err
+		})
+		try("Delete", func() error { return t.delKb.Delete(t.name, t.v.val, false) })
+		if has, err := t.delKb.HasByName(t.name); err != nil || !has {
+			report("keybase key is gone after Delete with a near-miss passphrase ("+t.v.group+")", t.ord, desc, fmt.Sprint(err))
+		}
+	})
+	// the right passphrase still signs afterwards (nothing above may have changed the stored key)
+	seen := map[string]bool{}
+	for _, t := range nts {
+		if seen[t.name] {
+			continue
+		}
+		seen[t.name] = true
+		sig, pub, err := t.kb.Sign(t.name, t.base.val, msg)
+		r.Eval()
+		nBcrypt.Add(1)
+		if err != nil || !pub.Equals(k.k.PubKey()) || !pub.VerifyBytes(msg, sig) {
+			report("keybase Sign with the right passphrase fails after near-miss attempts", t.ord, fmt.Sprintf("key=%s imported with %q", k.name, t.base.name), fmt.Sprint(err))
+		} else {
+			outcome("keybase:sign_right_pass_ok_after_near-miss_attempts")
+		}
 	}
 }
